@@ -717,10 +717,11 @@ pub fn run(_params: &Params) {
     } else {
       KeyBindingJWTValidationOptions::default()
     };
-    let opt_nonce: Option<String> = match ctx::weighted(&[5, 1, 1]) {
+    let opt_nonce: Option<String> = match ctx::weighted(&[10, 2, 2, 1]) {
       0 => Some(nonce.clone()),
       1 => Some("another-session".to_owned()),
-      _ => None,
+      2 => None,
+      _ => Some(String::new()),
     };
     if let Some(n) = &opt_nonce {
       ko = ko.nonce(n.clone());
@@ -889,8 +890,8 @@ pub fn run(_params: &Params) {
       ),
       (Ok(claims), None) => {
         ctx::stat("probe.kb.accepted");
-        if claims.nonce != nonce && opt_nonce.is_some() {
-          ctx::violation("C16", "C16.kb_accept_only_if_fully_bound", "accepted/nonce-differs", "returned KB claims carry another nonce");
+        if opt_nonce.as_ref().map(|o| *o != claims.nonce).unwrap_or(false) {
+          ctx::violation("C16", "C16.kb_accept_only_if_fully_bound", "accepted/nonce-differs", "returned KB claims carry another nonce than the configured one");
         }
       }
       (Err(_), None) => {
